@@ -73,6 +73,42 @@ Theorem C45_roundtrip_certificate_verify : forall (has : bool) sah sg,
 Proof. exact roundtrip_cv. Qed.
 Print Assumptions C45_roundtrip_certificate_verify.
 
+Theorem C45_roundtrip_next_proto : forall proto,
+  blen proto < 256 -> unmarshal_np (marshal_np proto) = Ok proto.
+Proof. exact roundtrip_np. Qed.
+Print Assumptions C45_roundtrip_next_proto.
+
+(* CertificateRequest (hasSignatureAndHash is set by the caller on both sides, as in the handshake):
+   1..255 certificate types (the parser rejects an empty list), signature algorithms only when
+   hasSignatureAndHash, CA names < 2^16 each and in total. *)
+Theorem C45_roundtrip_certificate_request : forall (has : bool) types sigalgs cas,
+  1 <= blen types < 256 -> forallb wf_u16 sigalgs = true -> blen sigalgs < 32768 ->
+  (has = false -> sigalgs = []) ->
+  forallb (wf_str 0 65536) cas = true -> blen (flat_map enc_vec16 cas) < 65536 ->
+  unmarshal_creq has (marshal_creq has types sigalgs cas) = Ok (types, sigalgs, cas).
+Proof. exact roundtrip_creq. Qed.
+Print Assumptions C45_roundtrip_certificate_request.
+
+(* Parse safety.  For every byte string and each of the 12 message types the modelled unmarshal ends in
+   Ok (Go: true) or Bad (Go: false): no loop runs out of fuel, so the model -- whose every slice is
+   bounds-checked -- is total; not_crash is exactly what prop_C45 demands of the implementation's
+   observation for a parse case (a Go panic or out-of-slice read is reported as [-2]). *)
+Theorem C45_unmarshal_total : forall mt (flag : bool) d,
+  In mt [1; 2; 3; 4; 5; 7; 8; 9; 10; 11; 12; 13] -> not_crash (unmarshal_any mt flag d) = true.
+Proof. exact parse_safe. Qed.
+Print Assumptions C45_unmarshal_total.
+
+Theorem C45_unmarshal_client_hello_total : forall d, unmarshal_ch d <> Fuel.
+Proof. exact unmarshal_ch_total. Qed.
+Print Assumptions C45_unmarshal_client_hello_total.
+
+(* the executable property holds of the model on every parse case *)
+Theorem C45_prop_of_model_parse : forall mt flag d,
+  In mt [1; 2; 3; 4; 5; 7; 8; 9; 10; 11; 12; 13] ->
+  prop_C45 (VL [VZ 2; VZ mt; VZ flag; VB d]) (run_C45 (VL [VZ 2; VZ mt; VZ flag; VB d])) = true.
+Proof. exact prop_parse_of_model. Qed.
+Print Assumptions C45_prop_of_model_parse.
+
 (* Non-vacuity: a ClientHello using all nine extensions is within the widths and round-trips. *)
 Example C45_client_hello_example :
   wf_ch ch_example = true /\ length (ch_exts ch_example) = 9%nat /\
